@@ -117,9 +117,12 @@ class ObjBox:           # instance of a repo class (or exception) with symbolic 
         self.symbolic = symbolic      # fields not present are created lazily (pre-existing object)
         self.ident = ident            # z3 Int id when the object pre-exists in the heap
         self.name = name              # parameter name it came from (key prefix in assume_fields)
+        self.facts = {}               # attr -> assumed type constraint of a lazily created field (re-asserted at each read)
 
     def clone(self):
-        return ObjBox(self.cls, self.fields, self.symbolic, self.ident, self.name)
+        b = ObjBox(self.cls, self.fields, self.symbolic, self.ident, self.name)
+        b.facts = dict(self.facts)
+        return b
 
 
 class FuncV:
